@@ -15,6 +15,7 @@ structure St where
   large : Bool
   level : Nat
   zone : Zone
+  gen : Int                  -- `g_logTimeZoneGen`
   cache : TimeCache          -- of the main thread
   mainTid : Option TidState  -- tid cache of the main thread (`none`: not looked at yet)
   env : List (List String)   -- pending environment lines, split into words (without the `<`)
@@ -124,7 +125,7 @@ def emit (s : St) (wh : String) (r : LogReq) (fatal : Bool) : St × List String 
     else if wh = "thread" then entryState r.tid .muduoThread
     else if wh = "fork" then entryState r.tid (.forkChild ptid mainT)
     else entryState r.tid (.foreign (wh = "raw1"))
-  let res := logLine s.zone cache t r
+  let res := logLine s.zone s.gen cache t r
   let s' := if wh = "main" then { s with cache := res.cache, mainTid := some res.tid } else s
   if assertsOn ∧ ¬ res.asserts then (s', ["out-none", "aborted"])
   else (s', ["out " ++ hex res.text] ++ (if fatal then ["aborted"] else []))
@@ -146,9 +147,10 @@ def exec (s : St) (ws : List String) : St × List String :=
     | some v => ({ s with level := v.toNat }, [s!"level {v}"])
     | none => bad
   | ["setzone", z] =>
-    if z = "none" then ({ s with zone := none }, ["ok"]) else
+    let bump := fun (s : St) (z : Zone) => (logStep { zone := s.zone, gen := s.gen, cache := s.cache, tid := TidState.fresh } (.setZone z)).1
+    if z = "none" then ({ s with zone := none, gen := (bump s none).gen }, ["ok"]) else
     match inRange (-86400) 86400 z with
-    | some v => ({ s with zone := some v }, ["ok"])
+    | some v => ({ s with zone := some v, gen := (bump s (some v)).gen }, ["ok"])
     | none => bad
   | ["line", wh, ctor, lvl, clk, err, file, lineno, func, "msg", msg] =>
     if ¬ isWhere wh then bad else
@@ -221,7 +223,7 @@ def exec (s : St) (ws : List String) : St × List String :=
   | _ => bad
 
 def main (lines : Array String) : IO Unit := do
-  let mut s : St := { buf := mkBuf kSmallBuffer, large := false, level := levelINFO, zone := none,
+  let mut s : St := { buf := mkBuf kSmallBuffer, large := false, level := levelINFO, zone := none, gen := zoneGenInit,
                       cache := TimeCache.fresh, mainTid := none, env := [] }
   let out ← IO.getStdout
   for line in lines do
